@@ -1,17 +1,16 @@
-SPECIFICATION Spec
-VIEW View
+SPECIFICATION CSpec
 CONSTANTS
   W = 99
   Back = {1, 50}
   Fwd = {0, 1, 2, 50, 98, 99, 100, 1000}
+  AbsLow = {1, 5, 104}
   Pairings = {"A", "B"}
   Foreign = {"X"}
   Iids = {1, 2, 3}
   Vals = {1, 2, 3}
-  Starts = {1, 300, 60000}
+  Starts = {1, 2, 100, 65436, 65437, 65500, 65534, 65535}
   KeyAtStart = {TRUE}
   MaxSteps = 1
   CaseDepth = 2
-PROPERTY StepAllowed
 POSTCONDITION ExportCases
 CHECK_DEADLOCK FALSE
